@@ -37,8 +37,16 @@ UpperBound(T, E, D) == IF E < 16 THEN Min2(T, D) ELSE Min2(D, Epochs(T, E) * Seg
 WellDefined(T, E) == E < 16 \/ (ArithOk(E) /\ EpochOk(T, E))
 
 Grid == {0, 1, 15, 16, 17, 99, 100, 101, 2047, 2048, 2049, 4096, 10000, 100000}
+\* the sample is cut into segments of Seg(E) bytes; its last segment can be shorter than one k-mer (16 bytes): scoring it
+\* must simply find nothing.  Estimates whose sample ends in a tail of 1, 8, 15 and exactly 16 bytes, and sources that
+\* are a little longer than those samples (so that an epoch scores the tail):
+TailLen(T, E) == IF E < 16 THEN 0 ELSE Lake(T, E) % Seg(E)
+GridE == Grid \cup {524544, 526336, 528128, 1052672}
+GridT == Grid \cup {2156, 4200}
+TailsCovered == {TailLen(T, E) : T \in GridT, E \in GridE} \cap {1, 8, 15, 16} = {1, 8, 15, 16}
 \* theorems on the specification over the grid: the procedure is well defined everywhere and bounded by D
-Theorems == \A T \in Grid, E \in Grid, D \in Grid : WellDefined(T, E) /\ UpperBound(T, E, D) <= D
+Theorems == /\ \A T \in GridT, E \in GridE, D \in Grid : WellDefined(T, E) /\ UpperBound(T, E, D) <= D
+            /\ TailsCovered
 
 \* ---- row validation: one observed run of the real builder ------------------------------------------
 Rows == ndJsonDeserialize(IOEnv.ROWS)
